@@ -155,6 +155,7 @@ MUTANTS = [
     ('C15', 'supp/server.py', r"                    try:\n                        self\.conn\.send_bytes\(content\)\n                    except:\n                        logger\.exception\('Send error'\)", "                    self.conn.send_bytes(content)", 'C15-R3'),
     ('C15', 'supp/server.py', r"dumps\(\(\('SerializeError', 'Serialize error'\), False\)\)", "dumps((('SerializeError', result), False))", 'C15-R3'),
     ('C15', 'supp/remote.py', r"raise Exception\(result\[1\]\)", "return None", 'C15-R2'),
+    ('C15', 'supp/server.py', r"            try:\n                message = str\(e\)\n            except Exception:[^\n]*\n                message = [^\n]*\n", "            message = str(e)\n", 'C15-R2'),
     ('C15', 'supp/server.py', r"return \[r\[:4\] for r in linter", "return [r[:3] for r in linter", 'C15-R1'),
     ('C15', 'supp/remote.py', r"return self\._call\('location', source, position, filename\)", "return self._call('location', source, filename, position)", 'C15-R1'),
     # ---- C16
